@@ -23,11 +23,11 @@ PY
   echo "=== $prop seed $k (demo test: $f)"
   conf=$(/verif/tools/confirm_seed.sh $wt $d/patch.diff $d/demo.diff "$f" 2>&1)
   echo "$conf"
-  /verif/tools/mutenv.sh lead --reset-repo >/dev/null
-  if ! (cd /tmp/mut-lead/repo && patch -p1 -s < $d/patch.diff); then echo "patch does not apply to current /repo"; fi
+  /verif/tools/mutenv.sh s-$prop --reset-repo >/dev/null
+  if ! (cd /tmp/mut-s-$prop/repo && patch -p1 -s < $d/patch.diff); then echo "patch does not apply to current /repo"; fi
   res=""
   for p in $prop $others; do
-    out=$(cd /verif && VERIF_HARNESS_DIR=/tmp/mut-lead/harness VERIF_OUT=/tmp/mut-lead/out ./check $p 2>&1 | grep -v "^KNOWN-FINDING" | cut -c1-400)
+    out=$(cd /verif && VERIF_HARNESS_DIR=/tmp/mut-s-$prop/harness VERIF_OUT=/tmp/mut-s-$prop/out ./check $p 2>&1 | grep -v "^KNOWN-FINDING" | cut -c1-400)
     rc=$?
     v=$(echo "$out" | grep -c "^VIOLATION")
     echo "--- ./check $p: violations=$v"; echo "$out" | head -6
